@@ -27,10 +27,28 @@ pub fn strategy_for(tier: Tier) -> BoxedStrategy<Case> {
         aud_nonce_strategy(),
         claims_strategy(ClaimCfg::LIGHT),
         choices_strategy(),
+        prop::option::weighted(0.3, proptest::collection::vec((choices_strategy(), any::<u8>()), 1..3)),
     )
-        .prop_map(move |(issue, ch, aud, nonce, second_claims, choices)| {
+        .prop_map(move |(issue, ch, aud, nonce, second_claims, choices, earlier)| {
             let selection = selection_for(&issue, &ch, SelOpts { allow_null: false });
-            C04Case { issue, selection, aud, nonce, second_claims, choices, all_positions: all }
+            let earlier = earlier
+                .unwrap_or_default()
+                .into_iter()
+                .map(|(ech, bits)| {
+                    let sel = match bits % 4 {
+                        0 => sdjwt_model::derive::reverse_members(&selection),
+                        1 => sdjwt_model::derive::narrow_selection(&selection, &mut sdjwt_model::derive::Choices::new(&ech)),
+                        _ => selection_for(&issue, &ech, SelOpts { allow_null: false }),
+                    };
+                    let kb = if bits & 8 != 0 {
+                        sdjwt_model::sut::KbArgs { default_alg: false, aud: aud.clone(), nonce: nonce.clone(), key: issue.holder }
+                    } else {
+                        sdjwt_model::sut::KbArgs { default_alg: bits & 16 != 0, aud: format!("https://earlier{}.example", bits), nonce: format!("earlier-{}", bits), key: issue.holder }
+                    };
+                    sdjwt_model::sut::EarlierCall { selection: sel, kb: Some(kb) }
+                })
+                .collect();
+            C04Case { issue, selection, aud, nonce, second_claims, choices, all_positions: all, earlier }
         })
         .boxed()
 }
